@@ -40,6 +40,10 @@ ASSUMPTIONS = [
     "a Progress violation only when every unfinished probe thread is found inside a lock acquisition of the "
     "library, otherwise a machinery failure",
     "the pty responder answers requests in arrival order (FIFO terminal)",
+    "the set of entry points that must be synchronized is TtySync!Synchronized (documented terminal-touching "
+    "functions, docstrings marked 'Synchronized with lock_tty', the UrwidImageScreen overrides); a member "
+    "'touches the terminal' when it reaches termios/read/write/select on the library's tty descriptor, or, for "
+    "the urwid screen, the inherited urwid.raw_display.Screen method of the same name",
 ]
 
 QUICK_MODELS = [
@@ -151,6 +155,60 @@ def validate_real(rep: Report, traces: list[dict], selfcheck: bool = True):
             raise tlc.MachineryError(f"real runs with {name} never exercised handover/nesting/queries: {m}")
 
 
+def validate_sync(rep: Report, result: dict, selfcheck: bool = True):
+    """The SET of synchronized entry points (specs/TtySync.tla), judged by Trace_TtySync."""
+    traces, names = [], []
+    for name, m in result["members"].items():
+        if "ev" not in m:
+            raise tlc.MachineryError(f"synchronized-set probe of {name}: {m.get('error')}")
+        if m["errors"]:
+            raise tlc.MachineryError(f"synchronized-set probe: {name} raised {m['errors']}")
+        if not m["decided"]:
+            raise tlc.MachineryError(f"synchronized-set probe of {name}: the caller neither touched the terminal, "
+                                     f"nor returned, nor waited for the lock within the time limit")
+        traces.append({"member": name, "ev": [{"k": e["k"], "t": e["t"]} for e in m["ev"]]})
+        names.append(name)
+    if not traces:
+        raise tlc.MachineryError("synchronized-set probe produced no trace")
+    extra = []
+    if selfcheck:
+        # corrupted trace: a touch moved in front of the release must be rejected
+        bad = copy.deepcopy(traces[0])
+        i = next(k for k, e in enumerate(bad["ev"]) if e["k"] == "release")
+        j = next(k for k, e in enumerate(bad["ev"]) if e["k"] == "touch")
+        if j > i:
+            bad["ev"].insert(i, bad["ev"].pop(j))
+            extra = [bad]
+    verdicts, st, tr = tlc.validate_traces("Trace_TtySync", "Trace_TtySync.cfg", traces + extra, batch=100,
+                                           parallel=1, workers=2, name="c14sync", timeout=300)
+    rep.states += st
+    rep.transitions += tr
+    if selfcheck and verdicts[0]["missing"]:
+        raise tlc.MachineryError(f"members of TtySync!Synchronized without a probe in the harness: {verdicts[0]['missing']}")
+    if extra and verdicts[0]["verdict"] == "ok" and not verdicts[-1]["verdict"].startswith("not-serialized"):
+        raise tlc.MachineryError(f"Trace_TtySync accepted a corrupted trace: {verdicts[-1]}")
+    waited = 0
+    for name, t, v in zip(names, traces, verdicts):
+        rep.traces_validated += 1
+        rep.evaluations += 1
+        rep.distinct.add(("sync", name))
+        waited += bool(v["waited"])
+        verdict = v["verdict"]
+        if verdict.startswith(("malformed", "vacuous")):
+            raise tlc.MachineryError(f"synchronized-set probe of {name}: {verdict}; events={t['ev']}")
+        if verdict != "ok":
+            clause = verdict.split(":")[0]
+            what = next((e.get("what") for e in result["members"][name]["ev"] if e["k"] == "touch"), "")
+            rep.violation(
+                f"synchronized-set:{name}:{clause}",
+                f"{name} is specified as synchronized on the terminal lock (specs/TtySync.tla): {verdict} "
+                f"(event {v['at']}; first terminal access: {what}); events: "
+                f"{[(e['k'], e['t']) for e in t['ev']][:10]}",
+                {"kind": "sync", "member": name},
+            )
+    rep.extra["synchronized_set"] = {"members": len(names), "seen_waiting_for_the_lock": waited}
+
+
 def report_replay(rep: Report, out: dict, cover: dict):
     cfg, inst = out["cfg"], out["instance"]
     rep.states += out["distinct"]
@@ -205,6 +263,9 @@ def _main(rep: Report, replay: dict | None) -> None:
             if r:
                 idx, e, d, desc = r
                 rep.violation(f"replay:{sc['instance']}:{d.clause}:{d.what}", f"{d.detail}\nreal state: {desc}", sc)
+        elif sc.get("kind") == "sync":
+            p, od = c14_real.launch_sync(os.path.join(rep.extra.get("repo", "/repo"), "src"), [sc["member"]])
+            validate_sync(rep, c14_real.collect_sync(p, od), selfcheck=False)
         elif sc.get("kind") == "real":
             # re-run the recorded configuration against the code under test (a real-time sample; the
             # recorded trace is kept in the file for reference)
@@ -221,6 +282,7 @@ def _main(rep: Report, replay: dict | None) -> None:
     # real runs start first (separate processes), the replays run meanwhile
     jobs = real_jobs(rep)
     first = [c14_real.launch(j) for j in jobs[:6]]
+    sync_p = c14_real.launch_sync(os.path.join(rep.extra.get("repo", "/repo"), "src"))
 
     cover: dict = {}
     with _pool() as ex:
@@ -285,3 +347,4 @@ def _main(rep: Report, replay: dict | None) -> None:
         "TLC and every edge replayed); real runs and the simulation sub-graph are samples"
     )
     validate_real(rep, traces)
+    validate_sync(rep, c14_real.collect_sync(*sync_p))
